@@ -90,6 +90,12 @@ def supervise(argv):
 def main():
     if os.environ.get("PGVERIF_CHILD") != "1":
         return supervise(sys.argv[1:])
+    try:        # the child must not outlive its supervisor (e.g. when an outer timeout kills it)
+        import ctypes
+        import signal
+        ctypes.CDLL("libc.so.6", use_errno=True).prctl(1, signal.SIGKILL)      # PR_SET_PDEATHSIG
+    except Exception:
+        pass
     ap = argparse.ArgumentParser()
     ap.add_argument("property")
     ap.add_argument("--tier", default=os.environ.get("VERIF_TIER", "quick"), choices=["quick", "thorough"])
